@@ -21,7 +21,7 @@ func init() {
 	Registry["C05"] = Spec{
 		Fn:          c05,
 		Level:       "fault_enumeration",
-		Rule:        "round trips: payload lengths 0..512 (quick) / 0..4096 (thorough) and sizes up to 1 MiB / 8 MiB x {compressible, random, zero} x {None, LZ4, LZ4HC levels 0..13, ZSTD} x frame sequences 1..8 x read sizes {1,2,3,7,16,len-1,len,len+1,random}; reference parse of every frame (layout, checksum placement, limits). Fault enumeration: every offset of every frame x masks {0x01,0x80,0xFF} (thorough: all 255 values for frames <= 128 B), reads continued after every error, each output byte attributed to a verified frame through position-tagged payloads; size fields beyond 128 MiB must be rejected with a bounded allocation delta; every value 0..24 and the 2^8 / 2^16 / 128 MiB / 2^31 / 2^32 boundaries of the compressed-size field x 10 data-size values x 5 method bytes with a bogus checksum must be answered with an error (no panic, nothing delivered). Non-trivial = frame with >=1 payload byte; distinct = (method, level, length, offset, mask)",
+		Rule:        "round trips: payload lengths 0..512 (quick) / 0..4096 (thorough) and sizes up to 2 MiB / 20 MiB x {compressible, random, zero} x {None, LZ4, LZ4HC levels 0..13, ZSTD} x frame sequences 1..8 x read sizes {1,2,3,7,16,len-1,len,len+1,random}; reference parse of every frame (layout, checksum placement, limits). Fault enumeration: every offset of every frame x masks {0x01,0x80,0xFF} (thorough: all 255 values for frames <= 128 B), reads continued after every error, each output byte attributed to a verified frame through position-tagged payloads; size fields beyond 128 MiB must be rejected with a bounded allocation delta; every value 0..24 and the 2^8 / 2^16 / 128 MiB / 2^31 / 2^32 boundaries of the compressed-size field x 10 data-size values x 5 method bytes with a bogus checksum must be answered with an error (no panic, nothing delivered). Non-trivial = frame with >=1 payload byte; distinct = (method, level, length, offset, mask)",
 		Assumptions: []string{"CityHash128 (go-faster/city), pierrec/lz4 and klauspost/zstd are trusted primitives shared with the library; the frame layout is checked independently", "allocation measured with runtime/metrics /gc/heap/allocs:bytes"},
 		MinDistinct: 500,
 	}
@@ -118,9 +118,9 @@ func c05(r *core.Run) {
 		}
 	}
 	// ---- 2. bigger sizes and frame sequences ----
-	sizes := []int{1000, 4095, 4096, 4097, 65535, 65536, 65537, 1 << 20}
+	sizes := []int{1000, 4095, 4096, 4097, 65535, 65536, 65537, 1 << 20, 1<<20 + 1, 2<<20 + 17}
 	if !r.Quick() {
-		sizes = append(sizes, 3<<20, 8<<20)
+		sizes = append(sizes, 3<<20, 8<<20, 8<<20+1, 20<<20)
 	}
 	for _, m := range methods {
 		for _, n := range sizes {
